@@ -39,7 +39,8 @@ def run(ctx):
                 "b.op(a) for add, subtract, multiply, divide, power) and reduce(f) over the join of three actions in every pair of "
                 "orders; (H) one Payload object handed to two operations (reduce over 2 / 4 inputs, batched reduce with uneven "
                 "batches, map) and to both builds; (U) unions (Cascade.from_actions, +, +=) of a generator source / a plain source with "
-                "the results of two programs whose nodes share a payload and read different outputs of one node; (S) pairs of "
+                "the results of two programs whose nodes share a payload and read different outputs of one node; (V) one action containing "
+                "the same sub-expression twice (map+add of itself, batched normalisation) made into a Cascade alone / united with its source; (S) pairs of "
                 "sources from those callables created by one or two from_source calls; (O) receiver in {A, A.map, D} x one or "
                 "two operations from {add, subtract, multiply, divide, power, join (match / no match / along x), broadcast} with "
                 "operands whose coordinates differ, and {map, add scalar, sum, sum keep_dim, mean, select, isel, stack, "
@@ -51,7 +52,7 @@ def run(ctx):
                 "(dims, coords, node identities, node payloads by value) of every pre-existing action",
         "clauses": ["NameInjective:different_lambdas", "NameInjective:different_callables_with_equal_name",
                     "NameInjective:different_inputs", "NameInjective:different_static_arguments",
-                    "NameInjective:union_lost_or_rewired_a_computation", "Deterministic",
+                    "NameInjective:union_lost_or_rewired_a_computation", "NameInjective:one_name_on_two_nodes_of_a_cascade", "Deterministic",
                     "OperandsIntact:<operation>", "raised", "program_not_executed", "harness_error"],
     })
     for c in cases[:: max(1, len(cases) // 4)][:4]:
